@@ -141,6 +141,107 @@ theorem unpack_diff (f t : List Key) :
         · simp [sumLens]
         · simp
 
+/-- BEFORE the repair: `diff` followed by `unpack_moves`, for two non-empty sequences -/
+theorem spec_of_diffOld (f t : List Key) (hf : f ≠ []) (ht : t ≠ []) :
+    (diffOld f t).clear = false ∧
+    Spec f t (diffOld f t).removed (unpackMoves (diffOld f t)).1 (unpackMoves (diffOld f t)).2 ∧
+    (diffOld f t).added.length = (unpackMoves (diffOld f t)).2.length ∧
+    ∀ a ∈ (unpackMoves (diffOld f t)).2, a.mode = .normal := by
+  have hd : diffOld f t =
+      { removed := ((List.range (max f.length t.length)).foldl (diffStepOld f t) {}).removed,
+        itemsToMove := sumLens (groupAdjacentMovesOld ((List.range (max f.length t.length)).foldl (diffStepOld f t) {}).moved),
+        moved := groupAdjacentMovesOld ((List.range (max f.length t.length)).foldl (diffStepOld f t) {}).moved,
+        added := ((List.range (max f.length t.length)).foldl (diffStepOld f t) {}).added,
+        clear := false } := by
+    unfold diffOld
+    have h1 : f.isEmpty = false := by cases f <;> simp_all
+    have h2 : t.isEmpty = false := by cases t <;> simp_all
+    simp [h1, h2]
+  obtain ⟨hr, ha, hm, hl⟩ := diffFoldOld f t (max f.length t.length)
+  have hu : unpackMoves (diffOld f t) = ((diffOld f t).moved.flatMap singles, (diffOld f t).added) := by
+    unfold unpackMoves
+    apply unpackLoop_complete
+    · rw [hd]; exact groupOld_len_pos _ hl
+    · rw [hd]; simp
+  refine ⟨by rw [hd], ⟨?_, ?_, ?_⟩, by rw [hu], ?_⟩
+  · rw [hd]; exact hr
+  · rw [hu, hd]; simp only; rw [ha]; simp [List.map_map, Function.comp_def]
+  · rw [hu, hd]; simp only
+    have := groupOld_pairs _ hl
+    simp only [movePairs] at this
+    rw [this, hm]
+  · rw [hu, hd]; simp only; rw [ha]; simp
+    rintro a x _ _ rfl; rfl
+
+/-- BEFORE the repair: `diff` followed by `unpack_moves`, from the empty sequence: `Append` additions at every index -/
+theorem spec_of_diffOld_from_empty (t : List Key) (ht : t ≠ []) :
+    (diffOld [] t).clear = false ∧ (diffOld [] t).removed = [] ∧ (unpackMoves (diffOld [] t)).1 = [] ∧
+    (unpackMoves (diffOld [] t)).2 = (List.range t.length).map (fun i => { at_ := i, mode := .append }) ∧
+    (diffOld [] t).added.length = t.length := by
+  have h2 : t.isEmpty = false := by cases t <;> simp_all
+  have hd : diffOld [] t = { added := (List.range t.length).map fun i => { at_ := i, mode := .append } } := by
+    unfold diffOld; simp [h2]
+  have hu : unpackMoves (diffOld [] t) = ((diffOld [] t).moved.flatMap singles, (diffOld [] t).added) := by
+    unfold unpackMoves
+    apply unpackLoop_complete
+    · rw [hd]; simp
+    · rw [hd]; simp [sumLens]
+  rw [hu, hd]; simp
+
+/-- BEFORE the repair: `unpack_moves (diff from to)`, for ALL `from`, `to` -/
+theorem unpack_diffOld (f t : List Key) :
+    unpackMoves (diffOld f t) = ((diffOld f t).moved.flatMap singles, (diffOld f t).added) := by
+  unfold unpackMoves
+  apply unpackLoop_complete
+  · unfold diffOld
+    split
+    · simp
+    · split
+      · simp
+      · split
+        · simp
+        · exact groupOld_len_pos _ (diffFoldOld f t _).2.2.2
+  · unfold diffOld
+    split
+    · simp [sumLens]
+    · split
+      · simp [sumLens]
+      · split
+        · simp [sumLens]
+        · simp
+
+/-- what the theorems about `apply_diff` need to know about the diff function -/
+structure DiffLike (D : List Key → List Key → Diff) : Prop where
+  nil_nil : D [] [] = {}
+  to_nil : ∀ f, f ≠ [] → D f [] = { clear := true }
+  general : ∀ f t, f ≠ [] → t ≠ [] →
+    (D f t).clear = false ∧
+    Spec f t (D f t).removed (unpackMoves (D f t)).1 (unpackMoves (D f t)).2 ∧
+    (D f t).added.length = (unpackMoves (D f t)).2.length ∧
+    ∀ a ∈ (unpackMoves (D f t)).2, a.mode = .normal
+  from_nil : ∀ t, t ≠ [] →
+    (D [] t).clear = false ∧ (D [] t).removed = [] ∧ (unpackMoves (D [] t)).1 = [] ∧
+    (unpackMoves (D [] t)).2 = (List.range t.length).map (fun i => { at_ := i, mode := .append }) ∧
+    (D [] t).added.length = t.length
+
+theorem diffLike_diff : DiffLike diff where
+  nil_nil := by simp [diff]
+  to_nil := by
+    intro f hf
+    have : f.isEmpty = false := by cases f <;> simp_all
+    simp [diff, this]
+  general := spec_of_diff
+  from_nil := spec_of_diff_from_empty
+
+theorem diffLike_diffOld : DiffLike diffOld where
+  nil_nil := by simp [diffOld]
+  to_nil := by
+    intro f hf
+    have : f.isEmpty = false := by cases f <;> simp_all
+    simp [diffOld, this]
+  general := spec_of_diffOld
+  from_nil := spec_of_diffOld_from_empty
+
 /-! ### `apply_diff` after the `clear` test -/
 
 /-- removals, move out, resize, move in, additions, drain — with the command lists as parameters -/
